@@ -283,6 +283,8 @@ def initiator_case(ck, rng, i):
     # the original payloads must still follow unchanged
     if i % 2 == 0:
         cookie2 = gen.rb(rng, len(cookie)) if i % 4 == 0 else gen.rb(rng, 24)
+        if cookie2 == cookie:
+            cookie2 = bytes([cookie[0] ^ 0x55]) + cookie[1:]      # (a one-octet cookie drawn twice: the SAME cookie again is legitimately not answered twice)
         res['payloads'][0]['data'] = cookie2
         sim.inject(a, peer, me, codec.encode_clear(res))
         ck.count('initiator.second_challenges')
